@@ -13,7 +13,8 @@ ASSUMPTIONS = [
     'serial CPU (cython) backend, LinkedListNNPS (the default of Interpolator and SPHEvaluator)',
     'update_particle_arrays is given arrays with the same names, in the same order, with the same properties and constants (documented precondition); different source arrays may have different property sets',
     'the smoothing length of the target points is the largest h of the real source particles at the time the points were set (what Interpolator documents by its code; the property text does not fix it)',
-    'after an in-place change of particles update() is called before interpolate (documented contract); histories that do not are not interpolated',
+    'after an in-place change of particle POSITIONS or SMOOTHING LENGTHS update() is called before interpolate (documented contract); histories that do not are not interpolated.  In-place changes of masses, densities, property values and constants need no update() (with a periodic domain they do: the ghosts are copies made by update())',
+    'several Interpolators / SPHEvaluators may be built over the same source arrays and used in any interleaving; each calls its own update() after the arrays moved; not with a periodic domain (two domain managers would own the ghosts of the same arrays)',
     'periodic boxes at least twice the kernel support wide',
 ]
 READY = True
@@ -35,7 +36,13 @@ LEVEL_TEXT = ("Lean 4 theorems over every neighbour list, every ordered field, a
               "every_target_particle_is_returned, target_points_independent_of_layout: ravel on the way in, "
               "reshape + squeeze on the way out) and every dtype of them (target_h_is_max_source_h, "
               "target_h_independent_of_points, target_coords_cast_index: the target particles sit at the caller's "
-              "points converted to double and carry the largest source h as a double) about a hand-written model that transcribes the five "
+              "points converted to double and carry the largest source h as a double) and over every history of the "
+              "state the source arrays SHARE with the caller and with other evaluators (order1 as three groups over "
+              "a store of m / rho / temp_prop: order1_density_from_present_masses, order1_independent_of_shared_rho, "
+              "order1_unaffected_by_other_evaluators, order1_shared_reproduces_linear: every call recomputes the "
+              "density from the present masses and builds matrix and right-hand side from the same volumes, whatever "
+              "rho held before; data_changes_keep_bindings, neighbours_current_after_data_changes: in-place changes "
+              "of data need no update()) about a hand-written model that transcribes the five "
               "interpolation equations as folds and the Interpolator/SPHEvaluator bindings as a state machine; the model is "
               "tied to the run-time-compiled evaluators on every run by bit-exact differential execution at Float "
               "(values, summation densities, moment matrices, right-hand sides, solutions, binding states, the "
@@ -43,7 +50,10 @@ LEVEL_TEXT = ("Lean 4 theorems over every neighbour list, every ordered field, a
               "particles made from N-d coordinate arrays in C/Fortran/permuted/strided/reversed layouts and of "
               "dtype float64/float32/int64/int32 or Python lists, their smoothing lengths, the objects whose "
               "property carrays and whose constant carrays each generated ParticleArrayWrapper holds, the "
-              "un-flattened result), and the "
+              "un-flattened result, one whole order1 compute per interpolate call from the rho the arrays held "
+              "BEFORE the call), in histories that change masses / densities / property values / constants in place "
+              "without update() and interleave a second Interpolator or SPHEvaluator over the same arrays (for order1 "
+              "one with another kernel, which leaves its own density in the shared rho), and the "
               "property's own predicate is evaluated by brute force on the real code, with the source values read "
               "from the requested property itself (zeros for arrays lacking it), entry idx judged at the caller's "
               "(x[idx], y[idx], z[idx]) with the target smoothing length computed from the history, user-supplied "
@@ -56,5 +66,5 @@ LEVEL_NOTE = ("Trusted: Lean kernel, axioms propext/Classical.choice/Quot.sound;
               "doubles; order1_reproduces_linear is about any exact solution of the system handed to gj_solve (soundness of "
               "gj_solve itself is property C13), the tie runs the real gj_solve model bit-exactly; LinkedListNNPS / serial "
               "cython backend only; histories respect the documented contract (same array names/order on rebinding, "
-              "update() after in-place changes).")
+              "update() after in-place changes of positions / smoothing lengths); no second evaluator with periodic domains.")
 TIMEOUT = {'quick': 1500, 'thorough': 3600}
